@@ -175,3 +175,25 @@ Definition lift_filter (f : list item -> option (list item)) (texts : list str) 
   end.
 Definition spec_filter (sp : specifier) (o arg : option bool) (texts : list str) : fout := lift_filter (spec_filter_v sp o arg) texts.
 Definition set_filter (S : sset) (arg : option bool) (texts : list str) : fout := lift_filter (set_filter_v S arg) texts.
+
+(* ---------------------------------------------------------------- objects with a mutable override; operation histories (C06) *)
+Inductive obj := OSpec (sp : specifier) (o : option bool) | OSet (A : sset).
+Inductive op :=
+| OpSet (p : option bool)                                 (* obj.prereleases = p *)
+| OpContains (arg inst : option bool) (item : str)        (* obj.contains(item, prereleases=arg[, installed=inst]) *)
+| OpIn (item : str)                                       (* item in obj *)
+| OpFilter (arg : option bool) (items : list str)         (* list(obj.filter(items, prereleases=arg)) *)
+| OpPre.                                                  (* obj.prereleases *)
+Inductive obs := ObsNone | ObsC (r : outcome) | ObsF (r : fout) | ObsP (p : option bool).
+Definition obj_override (x : obj) : option bool := match x with OSpec _ o => o | OSet A => ov A end.
+Definition with_override (x : obj) (p : option bool) : obj :=
+  match x with OSpec sp _ => OSpec sp p | OSet A => OSet (set_override A p) end.
+Definition step (x : obj) (o : op) : obj * obs :=
+  match o with
+  | OpSet p => (with_override x p, ObsNone)
+  | OpContains arg inst item =>
+      (x, ObsC (match x with OSpec sp o' => contains sp o' arg item | OSet A => set_contains A arg inst item end))
+  | OpIn item => (x, ObsC (match x with OSpec sp o' => contains sp o' None item | OSet A => set_contains A None None item end))
+  | OpFilter arg items => (x, ObsF (match x with OSpec sp o' => spec_filter sp o' arg items | OSet A => set_filter A arg items end))
+  | OpPre => (x, ObsP (match x with OSpec sp o' => Some (effective_pre o' sp) | OSet A => set_pre A end))
+  end.
